@@ -11,6 +11,12 @@ Driver for C10.
       `ERR:w:<enum>` (the write raised) or `ERR:r:<enum>` (the read raised).
   `c10 restrict <units> <ops> | write <d> <level>`
       answers the rendering of the original dataset restricted to the fields of that level.
+  `c10 info <units> <ops> | write <d> <level>`
+      answers `W:<T|F>|<tags>`: whether the dataset satisfies the model's `Writable` (the hypothesis of
+      `Props.C10.read_write`), and which branches of the model's write / read this dataset takes (the
+      write branches are read off the file — one array group per `writeArr` call —, the read branches
+      come from an instrumented twin of `readDS` whose result is compared with the model's here:
+      `twin-mismatch` if they ever differ).
   `c10 codec <meta tokens>`
       answers the rendering of `decode (encode meta)`, `unsavable` when `encode` refuses.
 
@@ -93,6 +99,123 @@ partial def showMeta : Meta → String
   | .set xs => s!"S {xs.length}" ++ String.join (xs.map (fun x => " " ++ showMeta x))
   | .dict kvs => s!"D {kvs.length}" ++ String.join (kvs.map (fun (k, v) => " " ++ showMeta k ++ " " ++ showMeta v))
 
+
+/-! ### which branches a round trip takes (coverage of the generator; not part of the model) -/
+
+/-- the `writeArr` branch every array group of the file was made by -/
+partial def grpTags (depth : Nat) : Grp → List String
+  | .mk a payload subs =>
+    match payload with
+    | none => "w:collection" :: subs.flatMap (fun e => grpTags depth e.2)
+    | some ob =>
+      let own :=
+        match attrName ob.kind, a.ref with
+        | none, _ => if ob.kind.registers then "w:plain-time" else "w:plain"
+        | some _, some name =>
+          if name.getLastD "" == "other" || name.getLastD "" == "ref_pos" then "w:named->embedded-object"
+          else if name.length > 1 then "w:named->nested-field" else "w:named->top-field"
+        | some _, none => if subs.isEmpty then "w:no-attachment" else s!"w:embedded-depth={depth + 1}"
+      own :: subs.flatMap (fun e => grpTags (depth + 1) e.2)
+
+abbrev T := List String
+
+def readArrT (file : File) : Nat → Grp → RSt → T → M (Nat × RSt × T)
+  | 0, _, _, _ => .error .fuel
+  | fuel + 1, .mk a payload subs, s, tr =>
+    match payload with
+    | none => .error .dangling
+    | some ob =>
+      match attrName ob.kind with
+      | none =>
+        let (o, s1) := s.alloc ob
+        .ok (o, (if ob.kind == .time || ob.kind == .timeDelta then s1.set a.fieldname o else s1),
+          tr ++ [if ob.kind.registers then "r:plain-time" else "r:plain"])
+      | some nm =>
+        let named := a.ref.isSome
+        let refR : M (Option Nat × RSt × T) :=
+          match refTarget file a subs nm with
+          | none => .ok (none, s, tr ++ ["r:no-attachment"])
+          | some (name, og) =>
+            match s.memo.lookup name with
+            | some o => .ok (some o, s, tr ++ [if named then "r:named-hit(read-before)" else "r:embedded-hit(read-before)"])
+            | none =>
+              match og with
+              | none => .error .attribute
+              | some g =>
+                match readArrT file fuel g s (tr ++ [if named then "r:named-miss(read-now)" else "r:embedded-miss(read-now)"]) with
+                | .error e => .error e
+                | .ok (o, s', tr') => .ok (some o, s'.set name o, tr')
+        match refR with
+        | .error e => .error e
+        | .ok (r, s1, tr1) =>
+          if ob.kind.isDelta && r.isNone then .error .unsupported else
+          let (o, s2) := s1.alloc (ob.withRef r)
+          .ok (o, s2.set a.fieldname o, tr1)
+
+def readMembersT (rd : Option Kind → Grp → RSt → T → M (Field × RSt × T)) :
+    List (String × Option Kind) → List (String × Grp) → RSt → T → M (List Field × RSt × T)
+  | [], _, s, tr => .ok ([], s, tr)
+  | (nm, ty) :: rest, subs, s, tr =>
+    match subs.lookup nm with
+    | none => .error .attribute
+    | some g =>
+      match rd ty g s tr with
+      | .error e => .error e
+      | .ok (f, s1, tr1) =>
+        match readMembersT rd rest subs s1 tr1 with
+        | .error e => .error e
+        | .ok (fs, s2, tr2) => .ok (f :: fs, s2, tr2)
+
+def readFieldT (file : File) (fa : Nat) : Nat → Option Kind → Grp → RSt → T → M (Field × RSt × T)
+  | 0, _, _, _, _ => .error .fuel
+  | _ + 1, some k, .mk a p subs, s, tr =>
+    let r : M (Nat × RSt × T) := match s.memo.lookup a.fieldname with
+      | some o => .ok (o, s, tr ++ ["f:leaf-memo-hit(read-before-through-a-reference)"])
+      | none => readArrT file fa (.mk a p subs) s (tr ++ ["f:leaf-read"])
+    match r with
+    | .error e => .error e
+    | .ok (o, s', tr') => .ok (.leaf (lastName a.fieldname) k o (objLen s'.heap o) (readUnit a.unit) a.level, s', tr')
+  | depth + 1, none, .mk a _ subs, s, tr =>
+    match readMembersT (readFieldT file fa depth) a.members subs s (tr ++ [if a.members.isEmpty then "f:collection-empty" else "f:collection"]) with
+    | .error e => .error e
+    | .ok (fs, s', tr') => .ok (.coll (lastName a.fieldname) file.numObs a.level fs, s', tr')
+
+def readTopT (file : File) (fa fd : Nat) : List (String × Option Kind) → RSt → T → M (List Field × RSt × T)
+  | [], s, tr => .ok ([], s, tr)
+  | (nm, ty) :: rest, s, tr =>
+    match file.groups.lookup nm with
+    | none => .error .attribute
+    | some g =>
+      match readFieldT file fa fd ty g s tr with
+      | .error e => .error e
+      | .ok (f, s1, tr1) =>
+        match readTopT file fa fd rest (regTop nm f s1) tr1 with
+        | .error e => .error e
+        | .ok (fs, s3, tr3) => .ok (f :: fs, s3, tr3)
+
+def dedup (l : List String) : List String := l.foldl (fun acc x => if acc.contains x then acc else acc ++ [x]) []
+
+/-- `W:<writable>|<tags>` -/
+def info (h : Heap) (x : DS) (lvl : Nat) : String :=
+  let w := if writableB h x lvl then "T" else "F"
+  let omitted := if (restrictFields lvl x.fields).length < x.fields.length then ["w:field-omitted(top)"] else []
+  match writeDS h x lvl with
+  | .error e => s!"W:{w}|w:ERR:{showErr e}"
+  | .ok file =>
+    let wt := file.groups.flatMap (fun e => grpTags 0 e.2)
+    let fa := h.length + 1
+    let fd := fieldsDepth x.fields + 1
+    let model := readBack h x file
+    let twin := readTopT file fa fd file.members {} []
+    let same : Bool := match model, twin with
+      | .ok (h', x'), .ok (fs, s, _) => renderDS h' x' == renderDS s.heap { numObs := file.numObs, fields := fs }
+      | .error e, .error e' => e == e'
+      | _, _ => false
+    let rt := match twin with
+      | .ok (_, _, tr) => tr
+      | .error e => ["r:ERR:" ++ showErr e]
+    s!"W:{w}|" ++ ",".intercalate (dedup (omitted ++ wt ++ rt ++ (if same then [] else ["twin-mismatch"])))
+
 def handle : List String → Option String
   | "c10" :: "codec" :: rest => do
     let (m, r) ← parseMeta rest
@@ -119,9 +242,10 @@ def handle : List String → Option String
           match writeDS w.heap x lvl with
           | .error e => pure ("ERR:w:" ++ showErr e)
           | .ok file =>
-            match readDS 100000 100000 file with
+            match readBack w.heap x file with
             | .error e => pure ("ERR:r:" ++ showErr e)
             | .ok (h', x') => pure ("ok:" ++ renderDS h' x')
+        else if mode == "info" then pure (info w.heap x lvl)
         else none
     | _ => none
   | _ => none
